@@ -339,6 +339,46 @@ def subline_case(sh, i):
                          'late_assets_that_worked': worked})
 
 
+def generated_subline_case(sh, i):
+    """(i') the same twin with a whole generated model (every device kind, groups, gates, batchers, pools, fault
+    scripts, operating schedules) as the sub-line."""
+    seed = core.stable_int(sh.seed, 'C20gen', i)
+    rng = random.Random(seed)
+    spec = modelgen.generate(seed % (1 << 40), rng.choice(['general', 'routing', 'faults', 'resources', 'batching']),
+                             tie='fifo', overrides={'p_split': 0.0, 'horizon': (12, 30)})
+    spec['script'] = [e for e in spec['script'] if e['op'] != 'rewire']
+    spec.pop('poke', None)
+    spec.pop('trace', None)
+    t = rng.choice([0.75, 3, 10.5, 0.125, 64, 2.5])
+    case = {'engine': 'subline', 'spec': spec, 't_create': t}
+    try:
+        early, lc1, m1 = run_subline(sh, spec, None, case)
+        late, lc2, m2 = run_subline(sh, spec, t, case)
+    except Exception as e:
+        import traceback
+        sh.violation('late_creation_crash', f'{type(e).__name__}: {e} {traceback.format_exc()[-1200:]}', case,
+                     engine='subline')
+        sh.case_done({'gen': seed}, False)
+        return
+    worked = 0
+    if not (lc1.failed or lc2.failed):
+        if early != late:
+            sh.violation('late_twin_differs', f'generated model created at {t} differs from its twin created before '
+                         f'the start (times shifted): {first_diff(early, late)}', case, engine='subline')
+        else:
+            sh.count('subline_twins_equal')
+            sh.count('generated_model_twins_equal')
+        d = m2.system.simulation_data
+        for it in spec['items']:
+            if len(d.get('received_part', {}).get(it['id'], [])) > 0:
+                worked += 1
+                sh.count('late_assets_that_worked')
+                sh.count('late_worked:' + it['kind'])
+    sh.case_done({'gen': seed, 't': t}, worked > 0,
+                 sample={'scenario': 'generated model created late', 't_create': t,
+                         'kinds': sorted({i['kind'] for i in spec['items']}), 'late_assets_that_worked': worked})
+
+
 # ---------------------------------------------------------------------------------------------------
 # (ii) branch attached to a running line
 
@@ -615,7 +655,9 @@ def run(sh):
     n = 510 if sh.tier == 'quick' else 90000
     for i in sh.share(n):
         k = i % 3
-        if k == 0:
+        if k == 0 and (i // 3) % 2:
+            generated_subline_case(sh, i)
+        elif k == 0:
             subline_case(sh, i)
         elif k == 1:
             branch_case(sh, i)
